@@ -338,6 +338,7 @@ type heldReq struct {
 type c21srv struct {
 	url  string
 	stop func()
+	srv  *server.Server
 
 	mu      sync.Mutex
 	script  map[string]*rule // by request type name, e.g. "ReadRequest"
@@ -436,6 +437,7 @@ func newC21Server() *c21srv {
 		server.EnableSecurity("None", ua.MessageSecurityModeNone),
 		server.EnableAuthMode(ua.UserTokenTypeAnonymous),
 	}, func(srv *server.Server) {
+		s.srv = srv
 		for _, tid := range requestIDs {
 			srv.RegisterHandler(tid, s.handle)
 		}
@@ -448,6 +450,12 @@ func newC21Server() *c21srv {
 
 func (s *c21srv) handle(sc *uasc.SecureChannel, req ua.Request, reqID uint32) (resp ua.Response, err error) {
 	name := reqName(req)
+	switch req.(type) {
+	case *ua.CreateSessionRequest, *ua.ActivateSessionRequest:
+		// the session services are scripted too: tell the real server about the session the script
+		// hands out, so that its dispatcher lets the following requests through to the scripted handlers
+		s.srv.VerifAdoptSession(ua.NewNumericNodeID(0, 0xC21), sc)
+	}
 	s.mu.Lock()
 	k := s.count[name]
 	s.count[name] = k + 1
